@@ -402,8 +402,7 @@ def run(rep, tier):
         "programs the loader rejects are outside the property and only counted",
     ]
     # smallest program first per signature
-    viol.sort(key=lambda v: (v["replay"].get("size", 0) or 10**6 if v["replay"].get("source") else 10**7,
-                             len(v["replay"].get("source") or ""), v["what"]))
+    viol.sort(key=lambda v: (len(v["replay"].get("source") or "") or 10**7, v["what"]))
     kept = {}
     for v in viol:
         n = kept.get(v["signature"], 0)
